@@ -655,7 +655,32 @@ class PhaseA:
         return ok
 
     # -- calls ------------------------------------------------------------------------
+    def _dict_of_map(self, c):
+        """`dict(map(F, X.items()))` with F a nested one-parameter function `a, b = item; return K, V` (or a lambda returning a pair
+        built from item[0] / item[1]) is the comprehension {K: V for a, b in X.items()}"""
+        if not (isinstance(c.func, ast.Name) and c.func.id == "dict" and len(c.args) == 1 and not c.keywords):
+            return None
+        m = c.args[0]
+        if not (isinstance(m, ast.Call) and isinstance(m.func, ast.Name) and m.func.id == "map" and len(m.args) == 2 and isinstance(m.args[0], ast.Name)):
+            return None
+        fdef = next((n for n in ast.walk(self.f.node) if isinstance(n, ast.FunctionDef) and n.name == m.args[0].id and n is not self.f.node), None)
+        if fdef is None or len(fdef.args.args) != 1 or fdef.args.vararg or fdef.args.kwarg:
+            return None
+        body = [s_ for s_ in fdef.body if not (isinstance(s_, ast.Expr) and isinstance(s_.value, ast.Constant))]
+        p_ = fdef.args.args[0].arg
+        if len(body) == 2 and isinstance(body[0], ast.Assign) and isinstance(body[0].targets[0], ast.Tuple) and len(body[0].targets[0].elts) == 2 \
+                and isinstance(body[0].value, ast.Name) and body[0].value.id == p_ and isinstance(body[1], ast.Return) \
+                and isinstance(body[1].value, ast.Tuple) and len(body[1].value.elts) == 2:
+            key, val = body[1].value.elts
+            comp = ast.DictComp(key=key, value=val, generators=[ast.comprehension(target=body[0].targets[0], iter=m.args[1], ifs=[], is_async=0)])
+            ast.copy_location(comp, c)
+            return ast.fix_missing_locations(comp)
+        return None
+
     def call(self, c, stmt_level=False):
+        synth = self._dict_of_map(c)
+        if synth is not None:
+            return self.expr(synth)
         fn = c.func
         argvals = [self.expr(a.value if isinstance(a, ast.Starred) else a) for a in c.args]
         kwvals = {k.arg: self.expr(k.value) for k in c.keywords}
